@@ -143,7 +143,10 @@ func runC20(c *Ctx) {
 			ob.Hold("errors.As(err, *net.Error)")
 		}
 	}
-	for _, tn := range []struct{ pkg, name string; ptr bool }{
+	for _, tn := range []struct {
+		pkg, name string
+		ptr       bool
+	}{
 		{"net", "AddrError", true}, {"net", "DNSError", true}, {"net", "InvalidAddrError", false}, {"net", "UnknownNetworkError", false},
 		{"net", "OpError", true}, {"net", "ParseError", true}, {"net", "DNSConfigError", true}, {"net/url", "Error", true},
 	} {
